@@ -278,6 +278,18 @@ func genC13(g *Gen) {
 		}
 		p.Clients = append(p.Clients, cp)
 	}
+	if p.Variant == "connloss" {
+		// the node a redirect points to resets its connection just when the redirecting node has produced the redirect: the
+		// proxy learns about both in the same poll, in either order. Whatever happens to the request, redirect handling must end
+		// (a reply, an error, or a closed connection).
+		p.Faulty = true
+		for k := g.R.Range(1, 3); k > 0; k-- {
+			ci := g.R.Intn(len(p.Clients))
+			ri := g.R.Intn(len(p.Clients[ci].Reqs))
+			p.Events = append(p.Events, Event{Kind: "kill-conn", When: When{Token: Tok(ci, ri), Phase: "consumed"},
+				Node: base.Nodes[g.R.Intn(2)].Addr, Rst: g.R.Pct(70)})
+		}
+	}
 	if mode != "moved" {
 		// slots being migrated master2 -> master0: some keys already moved (present at the target), some still at the source
 		seen := map[int]bool{}
@@ -302,7 +314,7 @@ func genC13(g *Gen) {
 
 func checkC13(d *Driver, res *Result) {
 	// in the "mixed" variant stalls, timeouts and backend errors are injected next to the redirects: a proxy error may stand in
-	d.StdReplyCheck("C13", Relax{AllowProxyError: d.P.Variant == "mixed"})
+	d.StdReplyCheck("C13", Relax{AllowProxyError: d.P.Variant == "mixed" || d.P.Variant == "connloss", AllowMissingClosed: d.P.Variant == "connloss"})
 	// termination: count re-sends per request token
 	perTok := map[string]int{}
 	moved, ask := 0, 0
